@@ -139,6 +139,14 @@ def agree(impl_o, spec_o):
     return impl_o == spec_o
 
 
+def getitem(a, i):
+    "a[i] where i may be symbolic (case code is not instrumented, so it must ask the engine explicitly)"
+    if isinstance(i, int):
+        return a[i]
+    from symx.core import sx_getitem
+    return sx_getitem(a, i)
+
+
 REGISTRY = {}
 
 
